@@ -325,4 +325,453 @@ theorem centrifugate_decorate (d : Decorated) (hy : Hyg d) :
       simp only [List.map_cons] at this
       rw [this]
 
+/-! ### Collecting the hints of a decorated text -/
+
+def numbered : Nat → List CodeLine → List (Nat × Hint)
+  | _, [] => []
+  | i, c :: cs => c.hints.map (fun h => (i, h)) ++ numbered (i + 1) cs
+
+theorem numbered_append (i : Nat) (a b : List CodeLine) :
+    numbered i (a ++ b) = numbered i a ++ numbered (i + a.length) b := by
+  induction a generalizing i with
+  | nil => simp [numbered]
+  | cons c t ih => simp [numbered, ih, Nat.add_assoc, Nat.add_comm 1]
+
+theorem numberedTokens_render (i : Nat) (cs : List CodeLine) (ok : ∀ c ∈ cs, OkCode c) :
+    numberedTokens i (cs.map renderCode) = (numbered i cs).map fun p => (p.1, renderHint p.2) := by
+  induction cs generalizing i with
+  | nil => rfl
+  | cons c t ih =>
+    simp [numberedTokens, numbered, hintTokens_renderCode c (ok c (by simp)),
+      ih (i + 1) (fun x hx => ok x (List.mem_cons_of_mem _ hx))]
+
+/-- The token regex reads a rendered hint back. -/
+theorem stepTok_render (i : Nat) (st : Bufs) (h : Hint) (hc : Clean h.label) :
+    stepTok i st (renderHint h) = stepEv i st (tokOf h) := by
+  obtain ⟨mark, L, sty⟩ := h
+  obtain ⟨plus, uni, gap⟩ := sty
+  cases L with
+  | nil => exact absurd rfl hc.ne
+  | cons c l =>
+    have hw : isWord c = true := hc.word c rfl
+    have hno : splitAfter (c :: l) = (c :: l, false) := hc.noell
+    have hel : ∀ u, splitAfter (c :: (l ++ ellipsis u)) = (c :: l, true) := fun u => splitAfter_ellipsis (c :: l) u
+    cases mark with
+    | one s =>
+      cases s <;> cases plus <;>
+        simp [stepTok, renderHint, tokOf, sign, matchLabel_word, matchLabel_plus, matchLabel_minus, hw, hno]
+    | opn s =>
+      cases s <;> cases plus <;>
+        simp [stepTok, renderHint, tokOf, sign, matchLabel_word, matchLabel_plus, matchLabel_minus, hw, hel]
+    | cls =>
+      cases uni
+      · simp [stepTok, renderHint, tokOf, ellipsis, dots3, matchLabel_dots3, hw, hno]
+      · have := matchLabel_ell c l hw
+        simp [stepTok, renderHint, tokOf, ellipsis, this, hno]
+
+theorem runToks_render (st : Bufs) (toks : List (Nat × Hint)) (hc : ∀ p ∈ toks, Clean p.2.label) :
+    runToks st (toks.map fun p => (p.1, renderHint p.2)) = runH st toks := by
+  induction toks generalizing st with
+  | nil => rfl
+  | cons p t ih =>
+    obtain ⟨i, h⟩ := p
+    simp only [List.map_cons, runToks, runH, stepTok_render i st h (hc (i, h) (by simp))]
+    cases stepEv i st (tokOf h) with
+    | ok st' => exact ih st' (fun q hq => hc q (List.mem_cons_of_mem _ hq))
+    | error e => rfl
+
+theorem mem_numbered {i : Nat} {cs : List CodeLine} {p : Nat × Hint} (h : p ∈ numbered i cs) :
+    ∃ c ∈ cs, p.2 ∈ c.hints := by
+  induction cs generalizing i with
+  | nil => simp [numbered] at h
+  | cons c t ih =>
+    simp only [numbered, List.mem_append, List.mem_map] at h
+    rcases h with ⟨x, hx, rfl⟩ | h
+    · exact ⟨c, by simp, hx⟩
+    · obtain ⟨c', hc', hp⟩ := ih h
+      exact ⟨c', List.mem_cons_of_mem _ hc', hp⟩
+
+/-! ### The centrifuged lines are still hygienic -/
+
+theorem okCode_addHints (c : CodeLine) (ok : OkCode c) (hs : List Hint) (hne : c.code ≠ [])
+    (hc : ∀ h ∈ hs, Clean h.label) : OkCode (c.addHints hs) :=
+  ⟨ok.nonl, ok.nom, ok.notrail, fun _ => hne, fun h hh => by
+    simp only [CodeLine.addHints, List.mem_append] at hh
+    rcases hh with hh | hh
+    · exact ok.clean h hh
+    · exact hc h hh⟩
+
+theorem okCode_centrifuged (ws : List Str) (hws : ∀ L ∈ ws, Clean L) (cs : List CodeLine)
+    (ok : ∀ c ∈ cs, OkCode c)
+    (hfirst : ∀ c, cs.head? = some c → c.code ≠ []) (hlast : ∀ c, cs.getLast? = some c → c.code ≠ []) :
+    ∀ c ∈ centrifuged ws cs, OkCode c := by
+  have hO : ∀ h ∈ ws.map wOpen, Clean h.label := by
+    intro h hh; simp only [List.mem_map] at hh; obtain ⟨L, hL, rfl⟩ := hh; exact hws L hL
+  have hC : ∀ h ∈ ws.map wClose, Clean h.label := by
+    intro h hh; simp only [List.mem_map] at hh; obtain ⟨L, hL, rfl⟩ := hh; exact hws L hL
+  have hB : ∀ h ∈ (ws.flatMap fun L => [wOpen L, wClose L]), Clean h.label := by
+    intro h hh; simp only [List.mem_flatMap] at hh
+    obtain ⟨L, hL, hcase⟩ := hh
+    simp at hcase
+    rcases hcase with rfl | rfl <;> exact hws L hL
+  cases cs with
+  | nil => simp [centrifuged]
+  | cons c t =>
+    cases t with
+    | nil =>
+      intro x hx
+      simp only [centrifuged, List.mem_singleton] at hx; subst hx
+      exact okCode_addHints c (ok c (by simp)) _ (hfirst c rfl) hB
+    | cons c2 t2 =>
+      obtain ⟨mid, last, hml⟩ := exists_snoc c2 t2
+      rw [hml, centrifuged_snoc]
+      have hlast' : last.code ≠ [] := hlast last (by rw [hml, List.getLast?_cons, List.getLast?_append]; simp)
+      intro x hx
+      simp only [List.mem_cons, List.mem_append, List.not_mem_nil, or_false] at hx
+      rcases hx with rfl | hx | rfl
+      · exact okCode_addHints c (ok c (by simp)) _ (hfirst c rfl) hO
+      · exact ok x (by rw [hml]; simp [hx])
+      · exact okCode_addHints last (ok last (by rw [hml]; simp)) _ hlast' hC
+
+/-! ### The marks of one label in the centrifuged lines are those the specification names -/
+
+theorem evsOf_line (L : Str) (i : Nat) (hs : List Hint) :
+    evsOf L (hs.map fun h => (i, h)) = hintEvs L i hs := by
+  simp [evsOf, hintEvs, List.filterMap_map, Function.comp_def]
+
+theorem evsOf_nil (L : Str) : evsOf L [] = [] := rfl
+
+theorem evsOf_append (L : Str) (a b : List (Nat × Hint)) : evsOf L (a ++ b) = evsOf L a ++ evsOf L b := by
+  simp [evsOf]
+
+theorem evsOf_numbered_cons (L : Str) (i : Nat) (c : CodeLine) (cs : List CodeLine) :
+    evsOf L (numbered i (c :: cs)) = hintEvs L i c.hints ++ evsOf L (numbered (i + 1) cs) := by
+  rw [numbered, evsOf_append, evsOf_line]
+
+theorem hintEvs_append (L : Str) (i : Nat) (a b : List Hint) :
+    hintEvs L i (a ++ b) = hintEvs L i a ++ hintEvs L i b := by
+  simp [hintEvs]
+
+theorem hintEvs_other (L : Str) (i : Nat) (hs : List Hint) (h : ∀ x ∈ hs, x.label ≠ L) :
+    hintEvs L i hs = [] := by
+  induction hs with
+  | nil => rfl
+  | cons x t ih =>
+    have hx := h x (by simp)
+    have := ih (fun y hy => h y (List.mem_cons_of_mem _ hy))
+    simp only [hintEvs] at this
+    simp [hintEvs, hx, this]
+
+/-- The hints appended for the whole-program labels, seen from one label. -/
+theorem hintEvs_flatMap (L : Str) (i : Nat) (g : Str → List Hint) (hg : ∀ x, ∀ h ∈ g x, h.label = x)
+    (ws : List Str) (hnd : ws.Nodup) :
+    hintEvs L i (ws.flatMap g) = if L ∈ ws then hintEvs L i (g L) else [] := by
+  induction ws with
+  | nil => rfl
+  | cons w t ih =>
+    have hnd' := List.nodup_cons.mp hnd
+    rw [List.flatMap_cons, hintEvs_append, ih hnd'.2]
+    by_cases hw : w = L
+    · subst hw
+      simp [hnd'.1]
+    · have hne : ¬ L = w := fun e => hw e.symm
+      have h0 : hintEvs L i (g w) = [] :=
+        hintEvs_other L i _ (fun x hx => by rw [hg w x hx]; exact hw)
+      simp [h0, hne]
+
+theorem hintEvs_wOpen (L : Str) (i : Nat) (ws : List Str) (hnd : ws.Nodup) :
+    hintEvs L i (ws.map wOpen) = if L ∈ ws then [Ev.opn false i] else [] := by
+  have h := hintEvs_flatMap L i (fun x => [wOpen x]) (by intro x h hh; simp at hh; subst hh; rfl) ws hnd
+  have e : ws.flatMap (fun x => [wOpen x]) = ws.map wOpen := by
+    clear h hnd
+    induction ws with
+    | nil => rfl
+    | cons w t ih => simp [List.flatMap_cons, ih]
+  rw [e] at h; rw [h]; simp [hintEvs, wOpen, Mark.ev]
+
+theorem hintEvs_wClose (L : Str) (i : Nat) (ws : List Str) (hnd : ws.Nodup) :
+    hintEvs L i (ws.map wClose) = if L ∈ ws then [Ev.cls i] else [] := by
+  have h := hintEvs_flatMap L i (fun x => [wClose x]) (by intro x h hh; simp at hh; subst hh; rfl) ws hnd
+  have e : ws.flatMap (fun x => [wClose x]) = ws.map wClose := by
+    clear h hnd
+    induction ws with
+    | nil => rfl
+    | cons w t ih => simp [List.flatMap_cons, ih]
+  rw [e] at h; rw [h]; simp [hintEvs, wClose, Mark.ev]
+
+theorem hintEvs_wBoth (L : Str) (i : Nat) (ws : List Str) (hnd : ws.Nodup) :
+    hintEvs L i (ws.flatMap fun x => [wOpen x, wClose x]) =
+      if L ∈ ws then [Ev.opn false i, Ev.cls i] else [] := by
+  have h := hintEvs_flatMap L i (fun x => [wOpen x, wClose x])
+    (by intro x h hh; simp at hh; rcases hh with rfl | rfl <;> rfl) ws hnd
+  rw [h]; simp [hintEvs, wOpen, wClose, Mark.ev]
+
+/-- Between the first and the last line nothing is added. -/
+theorem eventsFrom_mid (L : Str) (w : Bool) (n : Nat) (last : CodeLine) (mid : List CodeLine) :
+    ∀ i, 2 ≤ i → i + mid.length = n →
+      eventsFrom L w n i (mid ++ [last]) =
+        evsOf L (numbered i mid) ++ (hintEvs L n last.hints ++ if w then [Ev.cls n] else []) := by
+  induction mid with
+  | nil =>
+    intro i h2 hn
+    simp only [List.length_nil, Nat.add_zero] at hn
+    subst hn
+    have h1 : (i == 1) = false := by simp; omega
+    cases w <;> simp [eventsFrom, numbered, evsOf_nil, h1]
+  | cons m t ih =>
+    intro i h2 hn
+    simp only [List.length_cons] at hn
+    have h1 : (i == 1) = false := by simp; omega
+    have hne : (i == n) = false := by simp; omega
+    simp only [List.cons_append, eventsFrom, h1, hne, Bool.and_false, Bool.false_eq_true, if_false,
+      List.nil_append, evsOf_numbered_cons]
+    rw [ih (i + 1) (by omega) (by omega), List.append_assoc]
+
+theorem eventsFrom_centrifuged (L : Str) (ws : List Str) (hnd : ws.Nodup) (cs : List CodeLine) :
+    evsOf L (numbered 1 (centrifuged ws cs)) = eventsFrom L (decide (L ∈ ws)) cs.length 1 cs := by
+  cases cs with
+  | nil => rfl
+  | cons c t =>
+    cases t with
+    | nil =>
+      rw [centrifuged, evsOf_numbered_cons]
+      simp only [numbered, evsOf_nil, List.append_nil, CodeLine.addHints, hintEvs_append,
+        hintEvs_wBoth L 1 ws hnd, eventsFrom, List.length_singleton]
+      by_cases h : L ∈ ws <;> simp [h]
+    | cons c2 t2 =>
+      obtain ⟨mid, last, hml⟩ := exists_snoc c2 t2
+      rw [hml, centrifuged_snoc]
+      have hlen : (c :: (mid ++ [last])).length = mid.length + 2 := by simp
+      have hn1 : (1 == mid.length + 2) = false := by simp
+      rw [evsOf_numbered_cons, hlen]
+      simp only [eventsFrom, hn1, Bool.and_false, Bool.false_eq_true, if_false, List.nil_append,
+        CodeLine.addHints, hintEvs_append, hintEvs_wOpen L 1 ws hnd]
+      rw [eventsFrom_mid L _ (mid.length + 2) last mid 2 (by omega) (by omega)]
+      rw [numbered_append, evsOf_append, evsOf_numbered_cons]
+      simp only [numbered, evsOf_nil, List.append_nil, hintEvs_append, hintEvs_wClose L _ ws hnd]
+      have h2 : 1 + 1 + mid.length = mid.length + 2 := by omega
+      rw [h2]
+      by_cases h : L ∈ ws <;> simp [h]
+
+/-! ### Line numbers never decrease along the marks of a label -/
+
+theorem hintEvs_line (L : Str) (i : Nat) (hs : List Hint) : ∀ e ∈ hintEvs L i hs, e.line = i := by
+  intro e he
+  simp only [hintEvs, List.mem_filterMap] at he
+  obtain ⟨h, _, hh⟩ := he
+  split at hh
+  · simp only [Option.some.injEq] at hh; subst hh
+    cases h.mark <;> rfl
+  · cases hh
+
+theorem eventsFrom_block (L : Str) (w : Bool) (n i : Nat) (c : CodeLine) (cs : List CodeLine) :
+    ∃ blk, eventsFrom L w n i (c :: cs) = blk ++ eventsFrom L w n (i + 1) cs ∧ ∀ e ∈ blk, e.line = i := by
+  refine ⟨hintEvs L i c.hints ++ ((if w && i == 1 then [Ev.opn false 1] else []) ++
+      (if w && i == n then [Ev.cls n] else [])), by simp [eventsFrom], ?_⟩
+  intro e he
+  simp only [List.mem_append] at he
+  rcases he with he | he | he
+  · exact hintEvs_line L i _ e he
+  · split at he
+    · rename_i h; simp only [Bool.and_eq_true, beq_iff_eq] at h
+      simp at he; subst he; simp [Ev.line, h.2]
+    · simp at he
+  · split at he
+    · rename_i h; simp only [Bool.and_eq_true, beq_iff_eq] at h
+      simp at he; subst he; simp [Ev.line, h.2]
+    · simp at he
+
+theorem eventsFrom_ge (L : Str) (w : Bool) (n : Nat) (cs : List CodeLine) :
+    ∀ i, ∀ e ∈ eventsFrom L w n i cs, i ≤ e.line := by
+  induction cs with
+  | nil => intro i e he; simp [eventsFrom] at he
+  | cons c t ih =>
+    intro i e he
+    obtain ⟨blk, hb, hl⟩ := eventsFrom_block L w n i c t
+    rw [hb, List.mem_append] at he
+    rcases he with he | he
+    · exact Nat.le_of_eq (hl e he).symm
+    · have := ih (i + 1) e he; omega
+
+theorem eventsFrom_mono (L : Str) (w : Bool) (n : Nat) (cs : List CodeLine) :
+    ∀ i, Mono (eventsFrom L w n i cs) := by
+  induction cs with
+  | nil => intro i; simp [eventsFrom, Mono]
+  | cons c t ih =>
+    intro i
+    obtain ⟨blk, hb, hl⟩ := eventsFrom_block L w n i c t
+    rw [hb]
+    refine List.pairwise_append.mpr ⟨?_, ih (i + 1), ?_⟩
+    · exact List.pairwise_of_forall_mem_list (fun a ha b hb' => Nat.le_of_eq ((hl a ha).trans (hl b hb').symm))
+    · intro a ha b hb'
+      have := eventsFrom_ge L w n t (i + 1) b hb'
+      rw [hl a ha]; omega
+
+theorem noTie_of (w : List Ev) (h : noTie w = true) : NoTie w := by
+  intro i h1 h2
+  simp only [noTie, List.all_eq_true] at h
+  have := h _ h1
+  simp at this
+  exact this h2
+
+/-! ### `get_result` -/
+
+theorem mem_labelsOf (L : Str) (res : List Entry) : L ∈ labelsOf res ↔ ∃ e ∈ res, e.1 = L := by
+  induction res with
+  | nil => simp [labelsOf]
+  | cons e t ih =>
+    simp only [labelsOf, List.mem_cons, List.mem_filter, ih, decide_eq_true_eq]
+    constructor
+    · rintro (rfl | ⟨⟨x, hx, rfl⟩, _⟩)
+      · exact ⟨e, Or.inl rfl, rfl⟩
+      · exact ⟨x, Or.inr hx, rfl⟩
+    · rintro ⟨x, rfl | hx, rfl⟩
+      · exact Or.inl rfl
+      · by_cases h : x.1 = e.1
+        · exact Or.inl h
+        · exact Or.inr ⟨⟨x, hx, rfl⟩, h⟩
+
+theorem nodup_labelsOf (res : List Entry) : (labelsOf res).Nodup := by
+  induction res with
+  | nil => simp [labelsOf]
+  | cons e t ih =>
+    simp only [labelsOf]
+    refine List.nodup_cons.mpr ⟨by simp, ih.sublist List.filter_sublist⟩
+
+theorem sum_ite_nodup (L : Str) (f : Str → Nat) (ls : List Str) (hnd : ls.Nodup) :
+    (ls.map fun x => if x = L then f x else 0).sum = if L ∈ ls then f L else 0 := by
+  induction ls with
+  | nil => rfl
+  | cons x t ih =>
+    have hnd' := List.nodup_cons.mp hnd
+    simp only [List.map_cons, List.sum_cons, ih hnd'.2]
+    by_cases hx : x = L
+    · subst hx; simp [hnd'.1]
+    · have : ¬ L = x := fun e => hx e.symm
+      simp [hx, this]
+
+theorem spansOf_nil_of_not_mem (L : Str) (res : List Entry) (h : L ∉ labelsOf res) : spansOf L res = [] := by
+  rw [mem_labelsOf] at h
+  simp only [spansOf, List.filterMap_eq_nil_iff]
+  intro e he
+  have : ¬ e.1 = L := fun e' => h ⟨e, he, e'⟩
+  simp [this]
+
+/-- `get_result` keeps, label by label, exactly the recorded spans. -/
+theorem count_getResult (res : List Entry) (L : Str) (sp : Nat × Nat) :
+    (getResult res).count L sp = (spansOf L res).count sp := by
+  simp only [Sched.count, getResult, List.map_map, Function.comp_def]
+  rw [sum_ite_nodup L (fun x => ((spansOf x res).mergeSort spanLe).count sp) _ (nodup_labelsOf res)]
+  split
+  · exact (List.mergeSort_perm _ _).count_eq sp
+  · rename_i h; rw [spansOf_nil_of_not_mem L res h]; rfl
+
+theorem stack_nil_of_linesOf (stk : List (Str × Nat)) (h : ∀ L, linesOf L stk = []) : stk = [] := by
+  cases stk with
+  | nil => rfl
+  | cons p t =>
+    have := h p.1
+    simp [linesOf] at this
+
+theorem count_adds (r : List SSpan) (sp : Nat × Nat) : (adds r).count sp = r.count (false, sp) := by
+  induction r with
+  | nil => rfl
+  | cons x t ih =>
+    obtain ⟨b, y⟩ := x
+    cases b
+    · by_cases h : y = sp <;> simp [List.count_cons, ih, h]
+    · simp [List.count_cons, ih]
+
+theorem count_dels (r : List SSpan) (sp : Nat × Nat) : (dels r).count sp = r.count (true, sp) := by
+  induction r with
+  | nil => rfl
+  | cons x t ih =>
+    obtain ⟨b, y⟩ := x
+    cases b
+    · simp [List.count_cons, ih]
+    · by_cases h : y = sp <;> simp [List.count_cons, ih, h]
+
+/-! ### The round trip -/
+
+theorem events_eq (d : Decorated) (L : Str) :
+    events d L =
+      evsOf L (numbered 1 (centrifuged (sortDedup (wholeLabels d)) (codeLines d))) := by
+  rw [eventsFrom_centrifuged L _ (nodup_sortDedup _), events]
+  congr 1
+  rw [List.contains_eq_mem]
+  simp only [mem_sortDedup]
+
+/-- **`get_program` on a decorated program.** -/
+theorem getProgram_decorate (d : Decorated) (r : Str → List SSpan) (hy : Hyg d)
+    (hbal : ∀ L, Bal (events d L) (r L)) (hnt : ∀ L, NoTie (events d L)) :
+    ∃ p, getProgram (decorate d) = .ok p ∧ p.source = joinNL (base d) ∧
+      (∀ L sp, p.addition.count L sp = (r L).count (false, sp)) ∧
+      (∀ L sp, p.deletion.count L sp = (r L).count (true, sp)) := by
+  let ws := sortDedup (wholeLabels d)
+  let cs' := centrifuged ws (codeLines d)
+  have hws : ∀ L ∈ ws, Clean L := fun L hL => hy.whole L ((mem_sortDedup L _).mp hL)
+  have hfirst : ∀ c, (codeLines d).head? = some c → c.code ≠ [] := by
+    intro c hc; obtain ⟨x, t, hxt, _⟩ := hy.first c hc; simp [hxt]
+  have ok' : ∀ c ∈ cs', OkCode c := okCode_centrifuged ws hws _ hy.ok hfirst hy.last
+  have hcent := centrifugate_decorate d hy
+  -- the tokens
+  have hne' : cs'.map renderCode ≠ [] := by
+    intro e
+    have h1 : plainLines cs' = plainLines (codeLines d) := centrifuged_plain ws _
+    have h2 : cs' = [] := by simpa using e
+    rw [h2] at h1
+    exact hy.ne (by simpa [plainLines] using h1.symm)
+  have hsplit : splitNL (joinNL (cs'.map renderCode)) = cs'.map renderCode :=
+    splitNL_joinNL _ hne' (by
+      intro l hl; simp only [List.mem_map] at hl; obtain ⟨c, hc, rfl⟩ := hl
+      exact renderCode_noNL c (ok' c hc))
+  have hclean : ∀ p ∈ numbered 1 cs', Clean p.2.label := by
+    intro p hp
+    obtain ⟨c, hc, hh⟩ := mem_numbered hp
+    exact (ok' c hc).clean _ hh
+  have hrun : runToks {} (numberedTokens 1 (splitNL (joinNL (cs'.map renderCode)))) = runH {} (numbered 1 cs') := by
+    rw [hsplit, numberedTokens_render 1 cs' ok', runToks_render _ _ hclean]
+  -- label by label
+  have hproj0 : ∀ L, proj L ({} : Bufs) = ({} : St1) := fun L => rfl
+  have hlab : ∀ L, run1 (proj L {}) (evsOf L (numbered 1 cs')) =
+      .ok { sa := [], sd := [], ra := adds (r L), rd := dels (r L) } := by
+    intro L
+    rw [← events_eq d L, hproj0]
+    have hm : Mono (events d L) := eventsFrom_mono _ _ _ _ _
+    have := run1_bal (hbal L) {} hm (hnt L) ⟨by simp, by simp⟩
+    simpa using this
+  obtain ⟨st', hst', hfin⟩ := runH_of_labels (numbered 1 cs') {} (fun L => ⟨_, hlab L⟩)
+  have hp : ∀ L, proj L st' = { sa := [], sd := [], ra := adds (r L), rd := dels (r L) } := by
+    intro L
+    have := hfin L
+    rw [hlab L] at this
+    exact (Except.ok.inj this).symm
+  have hsa : st'.add.stack = [] := stack_nil_of_linesOf _ (fun L => by have := hp L; simpa [proj] using congrArg St1.sa this)
+  have hsd : st'.del.stack = [] := stack_nil_of_linesOf _ (fun L => by have := hp L; simpa [proj] using congrArg St1.sd this)
+  have hcollect : collectHints (joinNL (cs'.map renderCode)) =
+      .ok (getResult st'.add.result, getResult st'.del.result) := by
+    simp [collectHints, collectToks, hrun, hst', finish, hsa, hsd]
+  -- the stored source
+  have hsrc : removeHints (joinNL (cs'.map renderCode)) = joinNL (base d) := by
+    rw [removeHints, subHints_lines cs' ok', centrifuged_plain]
+    exact stripPy_plain (codeLines d) hy.ne hy.first
+      (fun c hc => ⟨hy.last c hc, (hy.ok c (List.mem_of_getLast? hc)).notrail⟩)
+  refine ⟨⟨joinNL (base d), getResult st'.add.result, getResult st'.del.result⟩, ?_, rfl, ?_, ?_⟩
+  · have hc2 := hcollect
+    have hs2 := hsrc
+    simp only [cs', ws] at hc2 hs2
+    simp only [getProgram, hcent, hc2, hs2]
+  · intro L sp
+    show (getResult st'.add.result).count L sp = _
+    rw [count_getResult, ← count_adds]
+    have := congrArg St1.ra (hp L)
+    simp only [proj] at this
+    rw [this]
+  · intro L sp
+    show (getResult st'.del.result).count L sp = _
+    rw [count_getResult, ← count_dels]
+    have := congrArg St1.rd (hp L)
+    simp only [proj] at this
+    rw [this]
+
 end Paroxy.Hints
